@@ -1,57 +1,466 @@
+// C01 harness: lints generated workspaces with the real linter under permutations of the argument
+// list, repetition and concurrent Lint calls (GOMAXPROCS is fixed per process by the driver, which
+// starts one process per value), canonicalises every report and records the distinct ones; it
+// also evaluates the lint query one file at a time WITHOUT pkg/linter's aggregation layer (the
+// rule oracle of the Coq model) and drives rules.InputFromPaths directly on respelled paths.
+//
+// usage: c01 <out.jsonl> <tier> <workdir> <gomaxprocs> <oracle:0|1> [fixed-workspaces.json [only]]
 package main
 
 import (
 	"context"
+	"encoding/json"
 	"fmt"
 	"os"
 	"path/filepath"
+	"runtime"
+	"sort"
+	"strconv"
 	"strings"
-	"time"
+	"sync"
+
+	"github.com/styrainc/regal/pkg/report"
+	"github.com/styrainc/regal/pkg/rules"
 
 	"verifharness/cmd/c01/probe"
 	"verifharness/hutil"
 )
 
-func main() {
-	wd := os.Args[1]
-	rng := hutil.NewRng(hutil.SeedFromEnv())
-	ctx := context.Background()
-	os.MkdirAll(wd, 0o755)
-	os.Chdir(wd)
-	for i := 0; i < 6; i++ {
-		n := 1 + i
-		ws := probe.GenWorkspace(rng, i, n)
-		root := fmt.Sprintf("w%d", i)
-		if err := ws.Write(root); err != nil {
-			panic(err)
+type Run struct {
+	Variant int  `json:"variant"`
+	Rep     int  `json:"rep"`
+	Conc    bool `json:"conc"`
+	Canon   int  `json:"canon"` // index into Canons, -1 on error
+	Order   int  `json:"order"` // index of the observed merge order signature
+}
+
+type OracleOut struct {
+	Files     []probe.FileRes `json:"files"`
+	Merged    []probe.AggKey  `json:"merged"`
+	Dirs      [][]string      `json:"dirs"`
+	AggViol   []probe.Viol    `json:"aggviol"`
+	AggPermOK bool            `json:"aggperm_ok"`
+	AggPermN  int             `json:"aggperm_n"`
+}
+
+type InputCase struct {
+	Paths  []string `json:"paths"`
+	OK     []bool   `json:"ok"`
+	Got    []string `json:"got"` // FileNames (workspace-relative spelling kept as is)
+	Err    bool     `json:"err"`
+	Stable bool     `json:"stable"` // identical over repetitions
+}
+
+type WsOut struct {
+	Kind     string          `json:"kind"`
+	Procs    int             `json:"procs"`
+	WS       probe.Workspace `json:"ws"`
+	N        int             `json:"n"`
+	Oracle   *OracleOut      `json:"oracle,omitempty"`
+	Variants [][]string      `json:"variants"`
+	Runs     []Run           `json:"runs"`
+	Canons   []probe.Canon   `json:"canons"`
+	Orders   int             `json:"orders"`
+	Errors   []string        `json:"errors"`
+	Inputs   []InputCase     `json:"inputs"`
+}
+
+func perms(xs []string) [][]string {
+	if len(xs) <= 1 {
+		return [][]string{append([]string{}, xs...)}
+	}
+	var out [][]string
+	for i := range xs {
+		rest := append(append([]string{}, xs[:i]...), xs[i+1:]...)
+		for _, p := range perms(rest) {
+			out = append(out, append([]string{xs[i]}, p...))
 		}
-		rel := func(s string) string { return strings.TrimPrefix(s, root+"/") }
-		t0 := time.Now()
+	}
+	return out
+}
+
+// orderSig: the order in which the per-file results were merged, as far as the exported
+// aggregates show it (entries are appended under the mutex)
+func orderSig(r report.Report) string {
+	best := ""
+	bestN := -1
+	keys := make([]string, 0, len(r.Aggregates))
+	for k := range r.Aggregates {
+		keys = append(keys, k)
+	}
+	sort.Strings(keys)
+	for _, k := range keys {
+		if len(r.Aggregates[k]) > bestN {
+			bestN = len(r.Aggregates[k])
+			best = k
+		}
+	}
+	if bestN <= 0 {
+		return ""
+	}
+	var fs []string
+	for _, a := range r.Aggregates[best] {
+		fs = append(fs, a.SourceFile())
+	}
+	return best + ":" + strings.Join(fs, ",")
+}
+
+type job struct {
+	variant, rep int
+	conc         bool
+}
+
+func runWorkspace(ctx context.Context, rng *hutil.Rng, ws probe.Workspace, procs int, tier string, withOracle, full bool) WsOut {
+	out := WsOut{Kind: "ws", Procs: procs, WS: ws, N: len(ws.Files), Errors: []string{}, Variants: [][]string{}, Runs: []Run{}, Canons: []probe.Canon{}, Inputs: []InputCase{}}
+	root := fmt.Sprintf("w%d", ws.ID)
+	if err := os.RemoveAll(root); err != nil {
+		panic(err)
+	}
+	if err := ws.Write(root); err != nil {
+		panic(err)
+	}
+	rel := func(s string) string { return strings.TrimPrefix(s, root+"/") }
+	names := []string{}
+	for _, f := range ws.Files {
+		names = append(names, filepath.Join(root, f.Name))
+	}
+	sort.Strings(names)
+	n := len(names)
+
+	// ---- rule oracle -----------------------------------------------------------------------
+	if withOracle {
 		o, err := probe.NewOracle(ctx, ws)
 		if err != nil {
 			panic(err)
 		}
-		t1 := time.Now()
-		var names []string
-		for _, f := range ws.Files {
-			names = append(names, filepath.Join(root, f.Name))
-		}
+		oo := &OracleOut{Files: []probe.FileRes{}, Merged: []probe.AggKey{}, Dirs: [][]string{}, AggViol: []probe.Viol{}, AggPermOK: true}
+		merged := map[string][]report.Aggregate{}
+		dirs := map[string]map[string][]string{}
 		for _, nm := range names {
 			fr, err := o.EvalFile(ctx, nm, n > 1, rel)
 			if err != nil {
 				panic(err)
 			}
-			fmt.Printf("  file %s: %d viol %d notices aggs=%v dirs=%v\n", fr.Name, len(fr.Viol), len(fr.Notices), fr.Aggs, fr.Dirs)
+			oo.Files = append(oo.Files, fr)
+			raw := fr.Raw()
+			for k, l := range raw.Aggregates {
+				for _, a := range l {
+					if len(a) == 0 {
+						if _, ok := merged[k]; !ok {
+							merged[k] = nil
+						}
+					} else {
+						merged[k] = append(merged[k], a)
+					}
+				}
+			}
+			for k, d := range raw.IgnoreDirectives {
+				dirs[k] = d
+			}
+			oo.Dirs = append(oo.Dirs, fr.Dirs...)
 		}
-		t2 := time.Now()
-		l, _ := ws.NewLinter()
-		rep, err := l.WithInputPaths(names).WithExportAggregates(true).Lint(ctx)
+		if n > 1 {
+			// the aggregate phase runs whenever more than one file was linted
+			oo.Merged = probe.CanonAggs(merged, rel)
+			av, err := o.EvalAggregate(ctx, merged, dirs, rel)
+			if err != nil {
+				panic(err)
+			}
+			oo.AggViol = av
+			// H_aggperm: the aggregate phase must not care about the order of the entries
+			want, _ := json.Marshal(av)
+			nsh := 2
+			if tier != "quick" {
+				nsh = 5
+			}
+			for s := 0; s < nsh; s++ {
+				sh := map[string][]report.Aggregate{}
+				for k, l := range merged {
+					if l == nil {
+						sh[k] = nil
+						continue
+					}
+					c := append([]report.Aggregate{}, l...)
+					if s == 0 {
+						for i, j := 0, len(c)-1; i < j; i, j = i+1, j-1 {
+							c[i], c[j] = c[j], c[i]
+						}
+					} else {
+						hutil.Shuffle(rng, c)
+					}
+					sh[k] = c
+				}
+				av2, err := o.EvalAggregate(ctx, sh, dirs, rel)
+				if err != nil {
+					panic(err)
+				}
+				got, _ := json.Marshal(av2)
+				oo.AggPermN++
+				if string(got) != string(want) {
+					oo.AggPermOK = false
+				}
+			}
+		}
+		out.Oracle = oo
+	}
+
+	// ---- argument variants -------------------------------------------------------------------
+	maxExh := 4
+	nsample := 6
+	if tier != "quick" {
+		nsample = 24
+	}
+	var variants [][]string
+	if n <= maxExh {
+		variants = perms(names)
+	} else {
+		variants = append(variants, append([]string{}, names...))
+		rv := append([]string{}, names...)
+		for i, j := 0, len(rv)-1; i < j; i, j = i+1, j-1 {
+			rv[i], rv[j] = rv[j], rv[i]
+		}
+		variants = append(variants, rv)
+		for len(variants) < nsample {
+			c := append([]string{}, names...)
+			hutil.Shuffle(rng, c)
+			variants = append(variants, c)
+		}
+	}
+	nperm := len(variants)
+	variants = append(variants, []string{root})                                   // the directory
+	variants = append(variants, append(append([]string{}, names...), names[n-1])) // a duplicate
+	variants = append(variants, append([]string{names[n-1], root}, names[0]))     // overlap
+	if !full && procs < 16 {
+		// the slow processes run a sample: identity, reverse-ish, one more, and the three extras
+		keep := [][]string{variants[0]}
+		if nperm > 1 {
+			keep = append(keep, variants[nperm-1])
+		}
+		if nperm > 2 {
+			keep = append(keep, variants[1+rng.Below(nperm-2)])
+		}
+		keep = append(keep, variants[nperm:]...)
+		variants = keep
+	}
+	out.Variants = variants
+
+	// ---- jobs ------------------------------------------------------------------------------
+	reps := 3
+	var jobs []job
+	for v := range variants {
+		jobs = append(jobs, job{v, 0, false})
+	}
+	for r := 1; r < reps; r++ {
+		jobs = append(jobs, job{0, r, false})
+	}
+	nconc := 3
+	if tier != "quick" {
+		nconc = 4
+	}
+	for r := 0; r < nconc; r++ {
+		jobs = append(jobs, job{rng.Below(len(variants)), reps + r, true})
+	}
+	conc := 1
+	if procs >= 16 {
+		conc = 6
+	} else if procs >= 2 {
+		conc = 2
+	}
+
+	canonIdx := map[string]int{}
+	orderIdx := map[string]int{}
+	var mu sync.Mutex
+	lintOnce := func(j job) {
+		l, err := ws.NewLinter()
+		var rep report.Report
+		if err == nil {
+			rep, err = l.WithInputPaths(variants[j.variant]).WithExportAggregates(true).Lint(ctx)
+		}
+		mu.Lock()
+		defer mu.Unlock()
+		if err != nil {
+			out.Errors = append(out.Errors, fmt.Sprintf("variant %d rep %d: %v", j.variant, j.rep, err))
+			out.Runs = append(out.Runs, Run{j.variant, j.rep, j.conc, -1, -1})
+			return
+		}
+		c := probe.CanonReport(rep, rel)
+		s := c.String()
+		ci, ok := canonIdx[s]
+		if !ok {
+			ci = len(out.Canons)
+			canonIdx[s] = ci
+			out.Canons = append(out.Canons, c)
+		}
+		sig := orderSig(rep)
+		oi, ok := orderIdx[sig]
+		if !ok {
+			oi = len(orderIdx)
+			orderIdx[sig] = oi
+		}
+		out.Runs = append(out.Runs, Run{j.variant, j.rep, j.conc, ci, oi})
+	}
+	// sequential jobs through a pool of `conc` goroutines; the explicitly concurrent ones all at once
+	var seq, par []job
+	for _, j := range jobs {
+		if j.conc {
+			par = append(par, j)
+		} else {
+			seq = append(seq, j)
+		}
+	}
+	ch := make(chan job)
+	var wg sync.WaitGroup
+	for w := 0; w < conc; w++ {
+		wg.Add(1)
+		go func() {
+			defer wg.Done()
+			for j := range ch {
+				lintOnce(j)
+			}
+		}()
+	}
+	for _, j := range seq {
+		ch <- j
+	}
+	close(ch)
+	wg.Wait()
+	for _, j := range par {
+		wg.Add(1)
+		go func(j job) {
+			defer wg.Done()
+			lintOnce(j)
+		}(j)
+	}
+	wg.Wait()
+	sort.Slice(out.Runs, func(a, b int) bool {
+		if out.Runs[a].Rep != out.Runs[b].Rep {
+			return out.Runs[a].Rep < out.Runs[b].Rep
+		}
+		return out.Runs[a].Variant < out.Runs[b].Variant
+	})
+	out.Orders = len(orderIdx)
+
+	// ---- InputFromPaths directly -------------------------------------------------------------
+	if withOracle {
+		bad := root + "_bad"
+		_ = os.MkdirAll(bad, 0o755)
+		_ = os.WriteFile(filepath.Join(bad, "bad.rego"), []byte("package p\n\nallow if {\n"), 0o644)
+		respell := func(p string) string {
+			switch rng.Below(5) {
+			case 0:
+				return "./" + p
+			case 1:
+				return strings.Replace(p, "/", "//", 1)
+			case 2:
+				return strings.Replace(p, "/", "/./", 1)
+			case 3:
+				return filepath.Dir(p) + "/../" + filepath.Base(filepath.Dir(p)) + "/" + filepath.Base(p)
+			}
+			return p
+		}
+		ncases := 4
+		for c := 0; c < ncases; c++ {
+			var ps []string
+			for _, nm := range names {
+				ps = append(ps, respell(nm))
+				if rng.Below(3) == 0 {
+					ps = append(ps, respell(nm)) // the same file twice, maybe spelled differently
+				}
+			}
+			switch c {
+			case 2:
+				ps = append(ps, filepath.Join(bad, "bad.rego"))
+			case 3:
+				ps = append(ps, filepath.Join(root, "missing.rego"))
+			}
+			hutil.Shuffle(rng, ps)
+			ic := InputCase{Paths: ps, Stable: true}
+			for _, p := range ps {
+				_, err := rules.InputFromPaths([]string{p}, "", nil)
+				ic.OK = append(ic.OK, err == nil)
+			}
+			var first string
+			for r := 0; r < 4; r++ {
+				q := append([]string{}, ps...)
+				if r > 0 {
+					hutil.Shuffle(rng, q)
+				}
+				in, err := rules.InputFromPaths(q, "", nil)
+				var cur string
+				if err != nil {
+					cur = "error"
+				} else {
+					cur = strings.Join(in.FileNames, "\x00")
+				}
+				if r == 0 {
+					first = cur
+					ic.Err = err != nil
+					if err == nil {
+						ic.Got = in.FileNames
+					}
+				} else if cur != first {
+					ic.Stable = false
+				}
+			}
+			out.Inputs = append(out.Inputs, ic)
+		}
+	}
+	return out
+}
+
+func sizes(tier string, rng *hutil.Rng) []int {
+	if tier == "quick" {
+		return []int{1, 2, 3, 4, 5, 8}
+	}
+	s := []int{1, 1, 2, 2, 2, 2, 3, 3, 3, 3, 3, 4, 4, 4, 4, 5, 5, 5, 6, 6, 7, 8, 8}
+	for len(s) < 28 {
+		s = append(s, 2+rng.Below(7))
+	}
+	return s
+}
+
+func main() {
+	if len(os.Args) < 6 {
+		fmt.Fprintln(os.Stderr, "usage: c01 <out.jsonl> <tier> <workdir> <gomaxprocs> <oracle:0|1> [fixed-workspaces.json [only]]")
+		os.Exit(2)
+	}
+	outPath, tier, wd := os.Args[1], os.Args[2], os.Args[3]
+	procs, _ := strconv.Atoi(os.Args[4])
+	withOracle := os.Args[5] == "1"
+	runtime.GOMAXPROCS(procs)
+	if err := os.MkdirAll(wd, 0o755); err != nil {
+		panic(err)
+	}
+	if err := os.Chdir(wd); err != nil {
+		panic(err)
+	}
+	out := hutil.NewOut(outPath)
+	defer out.Close()
+	ctx := context.Background()
+	rng := hutil.NewRng(hutil.SeedFromEnv())
+	// optional: a JSON list of fixed workspaces (corpus / replay) run first; "only" skips the generated ones
+	if len(os.Args) > 6 && os.Args[6] != "" {
+		b, err := os.ReadFile(os.Args[6])
 		if err != nil {
 			panic(err)
 		}
-		t3 := time.Now()
-		c := probe.CanonReport(rep, rel)
-		fmt.Printf("ws %d cfg=%s custom=%v n=%d: prep %v evalfiles %v lint %v\n", i, ws.Config, ws.Custom, n, t1.Sub(t0), t2.Sub(t1), t3.Sub(t2))
-		fmt.Println(c.String())
+		var wss []probe.Workspace
+		if err := json.Unmarshal(b, &wss); err != nil {
+			panic(err)
+		}
+		for i, ws := range wss {
+			ws.ID = 1000 + i
+			out.Emit(runWorkspace(ctx, rng, ws, procs, tier, withOracle, true))
+		}
+		if len(os.Args) > 7 && os.Args[7] == "only" {
+			return
+		}
+	}
+	// the workspaces are generated from their own generator so that every process of a run
+	// (one per GOMAXPROCS value) sees the same ones
+	gen := hutil.NewRng(hutil.SeedFromEnv() ^ 0x5eed)
+	for i, n := range sizes(tier, gen) {
+		ws := probe.GenWorkspace(gen, i, n)
+		out.Emit(runWorkspace(ctx, rng, ws, procs, tier, withOracle, false))
 	}
 }
